@@ -146,6 +146,10 @@ Section sort.
     match l with [] => [] | x :: r => insert_sorted x (isort r) end.
 End sort.
 
+(** a TCP / UDP listener relays to one cluster: is the address bound to a cluster other than [c]? *)
+Definition addr_elsewhere (m : gmap N (list tfront)) (c a : N) : bool :=
+  existsb (fun cl : N * list tfront => negb (fst cl =? c) && bool_decide (a ∈ (t_addr <$> snd cl))) (map_to_list m).
+
 Definition same_backend (id a : N) (b : backend) : bool := (b_id b =? id) && (b_addr b =? a).
 
 Section model.
@@ -239,9 +243,10 @@ Section model.
     | None => (s, Err ENotFound)
     end.
 
-  (** add_tcp_frontend / add_udp_frontend: [entry(cluster).or_default()] first;
-      one frontend per (cluster, address) *)
+  (** add_tcp_frontend / add_udp_frontend: an address bound to another cluster is
+      refused first; then [entry(cluster).or_default()]; one frontend per (cluster, address) *)
   Definition add_tfront (s : state) (udp : bool) (c : N) (t : tfront) : state * res :=
+    if addr_elsewhere (get_t udp s) c (t_addr t) then (s, Err EExists) else
     let bucket := default [] (get_t udp s !! c) in
     if bool_decide (t_addr t ∈ (t_addr <$> bucket))
     then (set_t udp s (<[c := bucket]> (get_t udp s)), Err EExists)
